@@ -326,6 +326,9 @@ func (fc *FuncCtx) execFor(st *State, x *ast.ForStmt, label string) *State {
 	if n, cv := fc.litCountingLoop(x); cv != nil {
 		return fc.execForUnrolled(st, x, cv, n, label)
 	}
+	if n, cv := fc.staticBound(st, x); cv != nil {
+		return fc.execForUnrolled(st, x, cv, n, label)
+	}
 	lc, ord := fc.loopContract(x)
 	at := x.Body.Lbrace
 	// a counting loop `for i := 0; ...; i++` may be the rewrite of `for i := range`: the contract name of the
